@@ -66,7 +66,11 @@ package stack
 //@             && ghost(lastTCPFlags) == int(old(hdr.buf[hdr.usedIdx + 13])) && ghost(lastTCPSeq) == int(old(be32(hdr.buf, hdr.usedIdx + 4))) && ghost(lastTCPAck) == int(old(be32(hdr.buf, hdr.usedIdx + 8))))
 //@   ensures implies(protocol == header.TCPProtocolNumber, ghost(sentNonFin) == old(ghost(sentNonFin)) + ite(old(hdr.buf[hdr.usedIdx + 13]) & 1 == 0, 1, 0) && ghost(sentFin) == old(ghost(sentFin)) + ite(old(hdr.buf[hdr.usedIdx + 13]) & 1 != 0, 1, 0))
 //@   ensures implies(protocol != header.TCPProtocolNumber, ghost(tcpSegs) == old(ghost(tcpSegs)) && ghost(sentNonFin) == old(ghost(sentNonFin)) && ghost(sentFin) == old(ghost(sentFin)))
-//@   modifies everything(), ghost(tcpSegs), ghost(lastTCPFlags), ghost(lastTCPSeq), ghost(lastTCPAck), ghost(sentNonFin), ghost(sentFin)
+// ASSUMED frame: handing a packet down does not synchronously change existing TCP sender,
+// receiver, segment or endpoint objects, except an endpoint's inbound segment queue (a packet
+// looped back to a local endpoint is only enqueued; it is processed by that endpoint's
+// protocol goroutine). Anything else may change.
+//@   modifies everything_but("protocol/transport/tcp.sender", "protocol/transport/tcp.receiver", "protocol/transport/tcp.endpoint", "protocol/transport/tcp.segment"), structfamily("protocol/transport/tcp.endpoint", "segmentQueue"), ghost(tcpSegs), ghost(lastTCPFlags), ghost(lastTCPSeq), ghost(lastTCPAck), ghost(sentNonFin), ghost(sentFin)
 
 // C06 at the hand-over from network to link layer: an IPv4 packet is handed down with a total
 // length field that equals the bytes it carries, and a header checksum that verifies.
